@@ -13,6 +13,8 @@ the oracle in harness/src/bin/c10.rs, which finds many violations there (see not
 -/
 import GluonModel.Comments
 import GluonModel.Proofs.Comments
+import GluonModel.PrettyDoc
+import GluonModel.Proofs.PrettyDoc
 
 namespace GluonModel.Props.C10
 open GluonModel.Comments
@@ -126,5 +128,122 @@ example : backward "　// é\r\n".toList = .done ["// é".toList] [] := by decid
 example : Recon "  // a\n x".toList ["// a".toList] "x".toList :=
   ⟨"  ".toList, "\n ".toList, "x".toList, [], by decide, by decide, by decide, by decide,
     [], [], by decide, by decide, by decide⟩
+
+/-! ## The `pretty` layout algorithm both printers render with (also serves C18's "at every
+line width")
+
+Model `GluonModel.PrettyDoc`: `Doc` and `render w` following `pretty` 0.10.0 `render::best` /
+`render::fitting` (the real look-ahead, `FlatAlt`, `Union` with its `fits` flag and `Fail`). -/
+
+section Layout
+open GluonModel.PrettyDoc
+open GluonModel.Proofs.PrettyDoc (tok Uniform Safe DropsLayout UnionFree flatText Res)
+
+/-- "token characters": everything but Unicode whitespace. -/
+def nonWsChar (c : Char) : Bool := !isWs c
+/-- … and additionally not a comma (the trailing comma of records/tuples is the one `FlatAlt`
+    of the printers whose two sides differ in visible text). -/
+def nonWsNonComma (c : Char) : Bool := !isWs c && c != ','
+
+theorem nonWsChar_dropsLayout : DropsLayout nonWsChar := ⟨by decide, by decide⟩
+theorem nonWsNonComma_dropsLayout : DropsLayout nonWsNonComma := ⟨by decide, by decide⟩
+
+/-- `render_tokens_are_leaves`: at EVERY width, whatever the look-ahead decides, the kept
+    characters of the rendered text are exactly the kept characters of the document's text
+    leaves in order — provided both sides of every `FlatAlt`/`Union` carry the same kept text
+    (`Uniform`).  `keep` is any character class that drops the blanks and newlines the renderer
+    itself writes. -/
+theorem render_tokens_are_leaves (keep : Char → Bool) (hk : DropsLayout keep) (w : Nat) (d : Doc)
+    (o : List Char) (hu : Uniform keep d) (h : render w d = some o) :
+    o.filter keep = tok keep d :=
+  Proofs.PrettyDoc.render_tok hk w d o hu h
+
+/-- For ANY document (no hypothesis): at every width the rendered text is, up to layout
+    characters, the text of one *resolution* of the document (one side chosen at every
+    `FlatAlt`/`Union`): the renderer never drops, duplicates or reorders a text leaf. For the
+    printers this pins the width dependence down to "each trailing comma is there or not". -/
+theorem render_is_a_resolution (keep : Char → Bool) (hk : DropsLayout keep) (w : Nat) (d : Doc)
+    (o : List Char) (h : render w d = some o) : ∃ t, Res keep d t ∧ o.filter keep = t :=
+  Proofs.PrettyDoc.render_res hk w d o h
+
+/-- `render_tokens_width_independent`: the token sequence does not depend on the width. -/
+theorem render_tokens_width_independent (keep : Char → Bool) (hk : DropsLayout keep) (d : Doc)
+    (hu : Uniform keep d) (w₁ w₂ : Nat) (o₁ o₂ : List Char)
+    (h₁ : render w₁ d = some o₁) (h₂ : render w₂ d = some o₂) :
+    o₁.filter keep = o₂.filter keep := by
+  rw [render_tokens_are_leaves keep hk w₁ d o₁ hu h₁, render_tokens_are_leaves keep hk w₂ d o₂ hu h₂]
+
+/-- Rendering cannot fail (the `Err(fail_doc())` of render.rs:548) when `Fail` occurs only inside
+    left sides of `Union`s — the only place format/src/pretty_print.rs:991 puts it. -/
+theorem render_never_fails_on_safe (w : Nat) (d : Doc) (hs : Safe d) : ∃ o, render w d = some o :=
+  Proofs.PrettyDoc.render_safe w d hs
+
+/-- Hence for the documents the printers build: a result at every width, with the same tokens. -/
+theorem render_total_and_width_independent (keep : Char → Bool) (hk : DropsLayout keep) (d : Doc)
+    (hu : Uniform keep d) (hs : Safe d) (w : Nat) :
+    ∃ o, render w d = some o ∧ o.filter keep = tok keep d := by
+  obtain ⟨o, h⟩ := render_never_fails_on_safe w d hs
+  exact ⟨o, h, render_tokens_are_leaves keep hk w d o hu h⟩
+
+/-- `fitting_sound` (the part of "no line exceeds the width unless unavoidable" that rests on the
+    look-ahead): when `fitting` accepts a union-free group at the current column, the renderer
+    lays the group out flat as exactly its flat text — no newline of its own, no text marked as
+    overflowing — and the group ends within the width (unless it is empty).
+    `render_lines_fit_or_atomic` in full (every line of the output) is NOT proved. -/
+theorem fitting_sound (w : Nat) (d : Doc) (rest : List Doc) (ind : Nat) (st : St)
+    (hu : UnionFree d) (h : fitting w d rest st.pos = true) :
+    go w ind .flat d rest st =
+        some { pos := st.pos + PrettyDoc.byteLen (flatText d), out := st.out ++ flatText d, fits := st.fits } ∧
+      (PrettyDoc.byteLen (flatText d) = 0 ∨ st.pos + PrettyDoc.byteLen (flatText d) ≤ w) :=
+  Proofs.PrettyDoc.fitting_sound w d rest ind st hu h
+
+/-- The `FlatAlt`s the two printers build are exactly: `line` (`hardline.flat_alt(" ")`,
+    everywhere), `line_` (`hardline.flat_alt(nil)`, base/src/types/pretty_print.rs:224-241),
+    `softline` (format :276), `fail().flat_alt(nil)` (format :991) and `trailing_comma`
+    (`",".flat_alt(nil)`, format :46).  The first four are uniform for every token class; the
+    trailing comma is uniform exactly for classes that ignore commas.  `Uniform` is
+    compositional (a conjunction over the document), so these leaf facts are all that is needed
+    besides the equality of the two sides of each `Union` (format :1007: the same parts grouped
+    differently). -/
+theorem printer_flat_alts_uniform (keep : Char → Bool) (hk : DropsLayout keep) :
+    Uniform keep Doc.softBreak ∧ Uniform keep Doc.softBreak_ ∧ Uniform keep Doc.softline ∧
+    Uniform keep Doc.failUnlessFlat ∧ (Uniform keep Doc.trailingComma ↔ keep ',' = false) :=
+  ⟨Proofs.PrettyDoc.uniform_softBreak hk, Proofs.PrettyDoc.uniform_softBreak_ keep,
+   Proofs.PrettyDoc.uniform_softline hk, Proofs.PrettyDoc.uniform_failUnlessFlat keep,
+   Proofs.PrettyDoc.uniform_trailingComma_iff keep⟩
+
+/-- A record literal as format/src/pretty_print.rs:666-729 builds it:
+    `"{" ++ nest 4 (line ++ "x = 1" ++ "," ++ line ++ "y" ++ trailing_comma) ++ line ++ "}"`,
+    grouped. -/
+def recordDoc : Doc :=
+  .group (.append (.text "{".toList)
+    (.append (.nest 4 (.append Doc.softBreak (.append (.text "x = 1".toList)
+      (.append (.text ",".toList) (.append Doc.softBreak (.append (.text "y".toList)
+        Doc.trailingComma))))))
+      (.append Doc.softBreak (.text "}".toList))))
+
+/-- The hypothesis `Uniform` is needed, and the trailing comma is the reason: with plain
+    "non-whitespace" tokens the record above renders to different token sequences at widths 80
+    and 4 … -/
+theorem render_tokens_width_independent_needs_uniform_fails :
+    ¬ Uniform nonWsChar recordDoc ∧
+    render 80 recordDoc = some "{ x = 1, y }".toList ∧
+    render 4 recordDoc = some "{\n    x = 1,\n    y,\n}".toList := by decide
+
+-- the look-ahead accepts the record body at width 80 and column 0 (hypothesis of `fitting_sound`)
+example : (∃ d, recordDoc = .group d ∧ UnionFree d ∧ fitting 80 d [] 0 = true) :=
+  ⟨_, rfl, by decide, by decide⟩
+
+/-- … while modulo commas it is covered by the theorem. -/
+example : Uniform nonWsNonComma recordDoc ∧ Safe recordDoc := by decide
+
+-- a `Union` whose left side fails in break mode and is chosen when flat (format :989-1001)
+example :
+    let d := Doc.union (.group (.append Doc.failUnlessFlat (.append (.text "f".toList)
+      (.append Doc.softBreak (.text "x".toList))))) (.append (.text "f".toList) (.append .line (.text "x".toList)))
+    Uniform nonWsChar d ∧ Safe d ∧ render 80 d = some "f x".toList ∧
+      render 2 d = some "f\nx".toList := by decide
+
+end Layout
 
 end GluonModel.Props.C10
